@@ -11,7 +11,7 @@ ShapeWalk(e, j, s) ==
     ELSE LET st == e.steps[j]  a == st.act
              s2 == Do(s, a)
              same == st.n = s2.n /\ st.r = s2.r /\ st.o = s2.o /\ AsSet(st.sx) = s2.sx /\ AsSet(st.sy) = s2.sy
-         IN (IF st.outcome # "ok" THEN {"C09.valid_operation_failed." \o a.k} ELSE {}) \cup
+         IN (IF st.outcome # "ok" THEN {"impl.valid_operation_failed." \o a.k} ELSE {}) \cup
             (IF AsSet(st.wrote) # {} THEN {"C09.caller_modified." \o a.k} ELSE {}) \cup
             (IF st.kinds # "ok" THEN {"C09.wellformed." \o a.k} ELSE {}) \cup
             (IF st.outcome = "ok" /\ ~same THEN {"impl.shape_step." \o a.k} ELSE {}) \cup
